@@ -209,7 +209,7 @@ func (w *world) netFault(op, detail string) error {
 		w.sim.Yield("net."+op, detail)
 	}
 	if w.netFailAt > 0 && w.netOps == w.netFailAt {
-		w.ctx.St.Count("fault.network_"+op, 1)
+		w.ctx.St.Faults["network_"+op]++
 		w.netFaults++
 		return fmt.Errorf("simulated network failure in %s %s", op, detail)
 	}
